@@ -135,6 +135,19 @@ fn all_ops(nvals: usize, depth: usize) -> Vec<Vec<(bool, usize)>> {
     out
 }
 
+/// equality that PANICS for one particular pair (stored key 7 compared with argument key 9): the caller catches the
+/// panic; the storage must be as it was (every token still yields its value, the next append gets the next index)
+#[derive(Clone, Debug)]
+struct PanicEq(u8);
+impl PartialEq for PanicEq {
+    fn eq(&self, o: &PanicEq) -> bool {
+        if self.0 == 7 && o.0 == 9 {
+            panic!("equality undefined for this pair");
+        }
+        self.0 == o.0
+    }
+}
+
 #[derive(Clone, Debug)]
 struct ZEq;
 impl PartialEq for ZEq {
@@ -194,6 +207,62 @@ fn other_types(tier: Tier) -> (u64, Vec<Viol>) {
         let r = guarded(|| generic_hist(&[], &floats[..3], &ops, &|a: &f32, b: &f32| a.to_bits() == b.to_bits()));
         if let Some(w) = r.unwrap_or_else(|p| Some(format!("x: panic {}", p))) {
             report("f32", &ops, 0, w);
+        }
+    }
+    // a comparison that panics in the middle of a scan: the operation is abandoned, nothing may have changed
+    {
+        let vals = [PanicEq(1), PanicEq(7), PanicEq(9)];
+        for ops in all_ops(3, tier.pick(4, 5)) {
+            n += 1;
+            let r = guarded(|| {
+                let mut real: Storage<PanicEq> = Storage::new();
+                let mut model: Vec<PanicEq> = vec![];
+                let mut handed: Vec<(Token<PanicEq>, usize)> = vec![];
+                for (step, (is_fetch, vi)) in ops.iter().enumerate() {
+                    let v = vals[*vi].clone();
+                    if *is_fetch {
+                        // the model decides whether the scan reaches the panicking pair before a hit
+                        let mut outcome: Result<Option<usize>, ()> = Ok(None);
+                        for (i, m) in model.iter().enumerate() {
+                            if m.0 == 7 && v.0 == 9 {
+                                outcome = Err(());
+                                break;
+                            }
+                            if m.0 == v.0 {
+                                outcome = Ok(Some(i));
+                                break;
+                            }
+                        }
+                        let got = std::panic::catch_unwind(std::panic::AssertUnwindSafe(|| real.fetch_or_append(v.clone())));
+                        match (outcome, got) {
+                            (Err(()), Err(_)) => {}
+                            (Ok(Some(p)), Ok(t)) if t.index() as usize == p => handed.push((t, p)),
+                            (Ok(None), Ok(t)) if t.index() as usize == model.len() => {
+                                handed.push((t, model.len()));
+                                model.push(v);
+                            }
+                            (o, g) => return Some(format!("step {}: fetch_or_append gave {:?}, the model expects {:?}", step, g.map(|t| t.index()).map_err(|_| "panic"), o)),
+                        }
+                    } else {
+                        let t = real.append(v.clone());
+                        if t.index() as usize != model.len() {
+                            return Some(format!("step {}: append returned index {} but {} values are stored (after an abandoned fetch?)", step, t.index(), model.len()));
+                        }
+                        handed.push((t, model.len()));
+                        model.push(v);
+                    }
+                    for (t, mi) in &handed {
+                        let ok = std::panic::catch_unwind(std::panic::AssertUnwindSafe(|| real[*t].0 == model[*mi].0)).unwrap_or(false);
+                        if !ok {
+                            return Some(format!("step {}: token {} no longer yields the value it was handed out for", step, t.index()));
+                        }
+                    }
+                }
+                None
+            });
+            if let Some(w) = r.unwrap_or_else(|p| Some(format!("x: panic {}", p))) {
+                report("PanicEq", &ops, 0, w);
+            }
         }
     }
     // storages around 2^8 and 2^16 values: values 0..k prefilled, then every sequence of <= 2 operations over
